@@ -1041,7 +1041,7 @@ int API_FUNC qthread_writeEF_nb(aligned_t *restrict       dest,
     qthread_t          *me      = qthread_internal_self();
 
     if (!me) {
-        return qthread_feb_blocker_func(dest, (void *)src, WRITEEF);
+        return qthread_feb_blocker_func(dest, (void *)src, WRITEEF_NB);
     }
     qthread_debug(FEB_BEHAVIOR, "tid %u dest=%p src=%p...\n", me->thread_id, dest, src);
     QTHREAD_FEB_UNIQUERECORD(feb, dest, me);
